@@ -38,6 +38,8 @@ class AXILMaster(Agent):
         self.hold_new = False
         self.pres = {"aw": [], "w": [], "ar": []}     # presentation cycle of each request
         self.proto = []
+        self.early_b = []     # write responses that arrived before both handshakes of their write (kept apart from proto: the
+        #                       timeout modules of C11 answer requests they terminate themselves)
         self._held = {"b": None, "r": None}
         # program-order hazards (memory semantics): a request waits for earlier conflicting ones (same word, one a write)
         self.w_after_r = self.r_after_w = None
@@ -116,6 +118,9 @@ class AXILMaster(Agent):
                     self.proto.append((t, ch, "payload changed before ready: %r -> %r" % (held, cur)))
             self._held[ch] = cur if (cur is not None and not v[chan.ready]) else None
         if v[b.b.valid] and v[b.b.ready]:
+            if self.b_n >= self.aw_acc or self.b_n >= self.w_acc:
+                # (AXI: a write response follows the handshakes of its address AND its data; the handshakes of this very cycle count)
+                self.early_b.append((t, "b", "write response #%d before its %s was accepted" % (self.b_n, "address" if self.b_n >= self.aw_acc else "data")))
             self.log["b"].append((t, v[b.b.resp]))
             self.bench.event(self.name, "b", t, v[b.b.resp])
             self.b_n += 1
@@ -193,8 +198,11 @@ class AXILSlave(Agent):
     silent_from: cycle from which the slave stops answering/accepting (fault)."""
 
     def __init__(self, bus, name="s0", awready="", wready="", arready="", lat=None, depth=4, read_data=None,
-                 err_range=None, silent_from=None, memory=False, idle_garbage=None):
+                 err_range=None, silent_from=None, memory=False, idle_garbage=None, ar_with_r=False):
         self.bus, self.name = bus, name
+        # ar_with_r: ARREADY is also high in every cycle in which this slave presents read data (a registered slave that can take the
+        # next address in the cycle its data leaves); only meaningful with a master that takes read data at once
+        self.ar_with_r = ar_with_r
         self.pat = {"aw": awready, "w": wready, "ar": arready}
         self.lat = lat or [1]
         self.depth = depth
@@ -320,6 +328,8 @@ class AXILSlave(Agent):
             want = 1 if t >= len(pat) else int(pat[t] == "1")
             if silent or q_len >= self.depth:
                 want = 0
+            if ch == "ar" and self.ar_with_r and self.r_on and not silent and len(self.rd_pending) <= 1:
+                want = 1
             # ready must not be withdrawn... (it may: AXI allows ready to drop while valid is low; while valid is
             # high and ready high the handshake happens in that very cycle, so any value is legal next)
             if want != v[chan.ready]:
